@@ -67,7 +67,7 @@ def run_mc(ctx, configs, witnesses):
     ctx.put("deviation_witnesses", wit)
 
 
-def gen_tasks(ctx, rng, n_cfg, n_beh, make_groups, maxcalls, faults, hyper_keys, per_beh_redraw=True, numeric=True):
+def gen_tasks(ctx, rng, n_cfg, n_beh, make_groups, maxcalls, faults, hyper_keys, per_beh_redraw=True, numeric=True, ckpt=False):
     """Returns [(draw, behaviour, opts)] : TLC-generated behaviours paired with concrete draws."""
     from concurrent.futures import ThreadPoolExecutor
     draws = []
@@ -75,12 +75,18 @@ def gen_tasks(ctx, rng, n_cfg, n_beh, make_groups, maxcalls, faults, hyper_keys,
         gs = make_groups(rng)
         draws.append(family.make_draw(rng, gs))
     abstracts = [abstract_of(d) for d in draws]
+    # TLC's simulator picks uniformly among successor states: with every hyper move enabled most actions would be SetHyper.
+    # Each configuration gets a handful of moves (scheduler moves over all groups preferred), so that steps dominate.
+    move_sets = []
+    for d in draws:
+        mv = family.hyper_moves(d["groups"], hyper_keys) if hyper_keys else []
+        allg = [m for m in mv if m[0] == 0]
+        pick = rng.sample(allg, min(len(allg), 2)) + rng.sample(mv, min(len(mv), 4))
+        move_sets.append(sorted(set(pick)))
 
     def sim(i):
-        d = draws[i]
-        moves = family.hyper_moves(d["groups"], hyper_keys) if hyper_keys else []
         behs, res = behaviours.simulate(abstracts[i], maxcalls, max(3, n_beh), ctx.seed * 1000 + i, faults=faults,
-                                        moves=moves, tag=f"{ctx.prop}-sim")
+                                        moves=move_sets[i], tag=f"{ctx.prop}-sim", ckpt=ckpt)
         return behs
     with ThreadPoolExecutor(max_workers=12) as ex:
         all_behs = list(ex.map(sim, range(n_cfg)))
@@ -92,6 +98,9 @@ def gen_tasks(ctx, rng, n_cfg, n_beh, make_groups, maxcalls, faults, hyper_keys,
             if per_beh_redraw:
                 dd["groups"] = [family.redraw_numeric(rng, g) for g in dd["groups"]]
                 dd["seed"] = rng.randrange(1 << 30)
+                for g2 in dd["groups"][1:]:
+                    if g2.get("shared_hyper"):          # groups that share one learning-rate / weight-decay table keep sharing it
+                        g2["lr"], g2["wd"] = list(dd["groups"][0]["lr"]), list(dd["groups"][0]["wd"])
             family.draw_scales(rng, dd)
             tasks.append((dd, beh, {"numeric": numeric}))
     return tasks
@@ -123,7 +132,8 @@ def random_history(rng, draw, abstract, n_steps, faults=("fail",), hyper_keys=("
     for _ in range(n_steps):
         if moves and rng.random() < 0.15:
             gi, key, v = rng.choice(moves)
-            events.append({"ev": "SetHyper", "g": gi, "key": key, "v": v})
+            for g1 in ([gi] if gi else range(1, len(draw["groups"]) + 1)):          # group 0 = every group at once (a scheduler)
+                events.append({"ev": "SetHyper", "g": g1, "key": key, "v": v})
         if rng.random() < flip:
             for _ in range(1 if flip <= 0.5 else rng.choice([1, 2, 3])):
                 gi = rng.randrange(len(masks))
